@@ -268,3 +268,10 @@ package graph
 //@   ensures[C06,C19] graph_unchanged: g.nodes == old(g.nodes) && g.edges == old(g.edges) && wf(g)
 //@   ensures[C06,C15] value_xor_error: (result1 == nil) ==> !isnil(result0)
 //@   ensures[C06,C15] error_has_no_order: (result1 != nil) ==> isnil(result0)
+//
+//@ func NewDependencyGraphWithCapacity
+//@   ensures[C19,C05] empty_graph: result != nil && fresh(result) && wf(result) && len(result.nodes) == 0 && (forall k NodeKey :: !(k in result.nodes) && !(k in result.edges))
+//@        && result.sortedNodesDirty && result.cycleCacheDirty
+//@ func NewDependencyGraph
+//@   ensures[C19,C05] empty_graph: result != nil && fresh(result) && wf(result) && len(result.nodes) == 0 && (forall k NodeKey :: !(k in result.nodes) && !(k in result.edges))
+//@        && result.sortedNodesDirty && result.cycleCacheDirty
